@@ -526,36 +526,89 @@ Proof.
 Qed.
 
 (* ------------------------------------------------------------------ the loop of create_marker_cache *)
-Lemma cc_loop_get q tb f k :
-  cc_loop q tb = MOk f -> tget k f = option_map (fun l => uniq (inq q l)) (tget k tb).
+Lemma cc_loop_get need q tb f k :
+  cc_loop need q tb = MOk f -> tget k f = option_map (fun l => uniq (inq q l)) (tget k tb).
 Proof.
   revert f. induction tb as [|[k' l] r IH]; intros f H; cbn in H.
   - inversion H; reflexivity.
-  - destruct (is_nil (uniq (inq q l)) && negb (is_nil l)); [discriminate|].
-    destruct (cc_loop q r) as [f'|e]; [|discriminate]. inversion H; subst f. cbn.
+  - destruct (is_nil (uniq (inq q l)) && negb (is_nil l) && need k'); [discriminate|].
+    destruct (cc_loop need q r) as [f'|e]; [|discriminate]. inversion H; subst f. cbn.
     destruct (pkey_eqb k k'); [reflexivity | apply IH; reflexivity].
 Qed.
-Lemma cc_loop_keys q tb f : cc_loop q tb = MOk f -> map fst f = map fst tb.
+Lemma cc_loop_keys need q tb f : cc_loop need q tb = MOk f -> map fst f = map fst tb.
 Proof.
   revert f. induction tb as [|[k' l] r IH]; intros f H; cbn in H.
   - inversion H; reflexivity.
-  - destruct (is_nil (uniq (inq q l)) && negb (is_nil l)); [discriminate|].
-    destruct (cc_loop q r) as [f'|e]; [|discriminate]. inversion H; subst f. cbn.
+  - destruct (is_nil (uniq (inq q l)) && negb (is_nil l) && need k'); [discriminate|].
+    destruct (cc_loop need q r) as [f'|e]; [|discriminate]. inversion H; subst f. cbn.
     rewrite (IH f'); reflexivity.
 Qed.
-Lemma cc_loop_err q tb k l :
-  In (k, l) tb -> l <> [] -> (forall g, In g l -> ~ In g q) -> exists e, cc_loop q tb = MErr e.
+Lemma cc_loop_err need q tb k l :
+  In (k, l) tb -> need k = true -> l <> [] -> (forall g, In g l -> ~ In g q) -> exists e, cc_loop need q tb = MErr e.
 Proof.
-  intros Hin Hne Hno. induction tb as [|[k' l'] r IH]; [destruct Hin|]. cbn.
+  intros Hin Hneed Hne Hno. induction tb as [|[k' l'] r IH]; [destruct Hin|]. cbn.
   destruct Hin as [E|Hin].
   - inversion E; subst k' l'.
     assert (Z : uniq (inq q l) = []).
     { destruct (uniq (inq q l)) as [|g r'] eqn:Eu; [reflexivity|].
       exfalso. assert (Hi : In g (uniq (inq q l))) by (rewrite Eu; left; reflexivity).
       apply uniq_In, inq_In in Hi. destruct Hi. eapply Hno; eauto. }
-    rewrite Z. destruct l; [congruence|]. cbn. eexists; reflexivity.
-  - destruct (is_nil (uniq (inq q l')) && negb (is_nil l')); [eexists; reflexivity|].
+    rewrite Z, Hneed. destruct l; [congruence|]. cbn. eexists; reflexivity.
+  - destruct (is_nil (uniq (inq q l')) && negb (is_nil l') && need k'); [eexists; reflexivity|].
     destruct (IH Hin) as [e He]. rewrite He. eexists; reflexivity.
+Qed.
+
+(* the loop rejects nothing but a NEEDED entry that lists genes and shares none with the query *)
+Definition entry_ok (need : pkey -> bool) (q : list gene) (kl : pkey * list gene) : Prop :=
+  need (fst kl) = false \/ snd kl = [] \/ n_usable q (snd kl) <> 0%nat.
+
+Lemma cc_loop_ok_iff need q tb :
+  (exists f, cc_loop need q tb = MOk f) <-> Forall (entry_ok need q) tb.
+Proof.
+  induction tb as [|[k l] r IH]; cbn [cc_loop].
+  - split; [constructor | eexists; reflexivity].
+  - split.
+    + intros [f H].
+      destruct (is_nil (uniq (inq q l)) && negb (is_nil l) && need k) eqn:E; [discriminate|].
+      destruct (cc_loop need q r) as [f'|e]; [|discriminate].
+      constructor; [|apply IH; eexists; reflexivity].
+      unfold entry_ok, n_usable. cbn [fst snd].
+      destruct (need k); [|left; reflexivity]. right.
+      destruct l as [|g l']; [left; reflexivity|]. right.
+      cbn [is_nil negb] in E. rewrite !andb_true_r in E.
+      destruct (uniq (inq q (g :: l'))); [discriminate | cbn; discriminate].
+    + intros HF. inversion HF as [|? ? Hk Hr]; subst.
+      apply IH in Hr. destruct Hr as [f' Hf']. rewrite Hf'.
+      assert (E : is_nil (uniq (inq q l)) && negb (is_nil l) && need k = false).
+      { unfold entry_ok, n_usable in Hk. cbn [fst snd] in Hk. destruct Hk as [Hk|[Hk|Hk]].
+        - rewrite Hk. apply andb_false_r.
+        - subst l. reflexivity.
+        - destruct (uniq (inq q l)); [exfalso; apply Hk; reflexivity | reflexivity]. }
+      rewrite E. eexists; reflexivity.
+Qed.
+
+Lemma cc_loop_err_code need q tb e : cc_loop need q tb = MErr e -> e = E_NO_OVERLAP.
+Proof.
+  induction tb as [|[k l] r IH]; cbn; [discriminate|].
+  destruct (is_nil (uniq (inq q l)) && negb (is_nil l) && need k); [intros H; inversion H; reflexivity|].
+  destruct (cc_loop need q r) as [f'|e']; [discriminate|]. intros H; inversion H; subst. apply IH. reflexivity.
+Qed.
+
+(* ... stated on the failing entry *)
+Lemma cc_loop_fails_on_needed need q tb e :
+  cc_loop need q tb = MErr e ->
+  e = E_NO_OVERLAP /\
+  exists k l, In (k, l) tb /\ need k = true /\ l <> [] /\ (forall g, In g l -> ~ In g q).
+Proof.
+  intros H. split; [eapply cc_loop_err_code; exact H|].
+  revert e H. induction tb as [|[k l] r IH]; intros e H; cbn in H; [discriminate|].
+  destruct (is_nil (uniq (inq q l)) && negb (is_nil l) && need k) eqn:E.
+  - apply andb_true_iff in E. destruct E as [E Hn]. apply andb_true_iff in E. destruct E as [E1 E2].
+    exists k, l. split; [left; reflexivity|]. split; [exact Hn|].
+    split; [intros ->; discriminate|].
+    apply n_usable_zero. unfold n_usable. destruct (uniq (inq q l)); [reflexivity | discriminate].
+  - destruct (cc_loop need q r) as [f'|e'] eqn:Er; [discriminate|].
+    destruct (IH e' eq_refl) as (k' & l' & Hin & Hrest). exists k', l'. split; [right; exact Hin | exact Hrest].
 Qed.
 
 (* ------------------------------------------------------------------ write_query_markers *)
@@ -728,11 +781,11 @@ Lemma create_cache_inv tb refg qg t minm c :
   create_cache tb refg qg (Some t) minm = MOk c ->
   exists tb' log final,
     validate_marker_lookup tb qg t minm = MOk (tb', log) /\
-    cc_loop qg tb' = MOk final /\ missing_ref refg tb' = false /\
+    cc_loop (needs_markers t) qg tb' = MOk final /\ missing_ref refg tb' = false /\
     write_query_markers final refg qg = MOk c.
 Proof.
   unfold create_cache. destruct (validate_marker_lookup tb qg t minm) as [[tb' log]|e] eqn:V; [|discriminate].
-  destruct (cc_loop qg tb') as [final|e] eqn:C; [|discriminate].
+  cbn [cc_need]. destruct (cc_loop (needs_markers t) qg tb') as [final|e] eqn:C; [|discriminate].
   destruct (missing_ref refg tb') eqn:M; [discriminate|].
   intros H. exists tb', log, final. auto.
 Qed.
@@ -771,7 +824,7 @@ Proof.
     - destruct (validate_root _ _ _ _ _ V Hch) as (l & Hl & _).
       exists l. split; [congruence|]. intros g. unfold spec_markers, entry. rewrite Hl, inq_In. reflexivity. }
   destruct Hpres as (l & Hl & Hspec).
-  assert (Hf : tget p final = Some (uniq (inq qg l))) by (rewrite (cc_loop_get _ _ _ _ C), Hl; reflexivity).
+  assert (Hf : tget p final = Some (uniq (inq qg l))) by (rewrite (cc_loop_get _ _ _ _ _ C), Hl; reflexivity).
   destruct (write_get _ _ _ _ _ _ W Hf) as (ri & qi & names & G & Hperm & Hasc & N1 & N2).
   exists ri, qi, names. repeat split; auto.
   - eapply Permutation_NoDup; [exact Hperm | apply uniq_NoDup].
@@ -842,7 +895,9 @@ Proof.
   assert (Z : n_usable qg l = 0%nat).
   { apply n_usable_zero. intros g Hg. apply Hno. unfold entry. rewrite Hl. exact Hg. }
   assert (Hl' : tget None tb' = Some l) by (rewrite (validate_root_unchanged _ _ _ _ _ _ V); exact Hl).
-  destruct (cc_loop_err qg tb' None l (tget_In _ _ _ Hl') Hne) as [e He].
+  assert (Hneed : needs_markers t None = true).
+  { unfold needs_markers, in_parents, all_parents. cbn [existsb pkey_eqb orb]. apply Nat.leb_le. exact Hc. }
+  destruct (cc_loop_err (needs_markers t) qg tb' None l (tget_In _ _ _ Hl') Hneed Hne) as [e He].
   - apply n_usable_zero. exact Z.
   - congruence.
 Qed.
@@ -928,7 +983,7 @@ Theorem used_in_query_and_reference tb refg qg topt minm c k ri qi :
 Proof.
   unfold create_cache.
   destruct (match topt with Some t => _ | None => MOk tb end) as [tb'|e] eqn:V; [|discriminate].
-  destruct (cc_loop qg tb') as [final|e] eqn:C; [|discriminate].
+  destruct (cc_loop (cc_need topt) qg tb') as [final|e] eqn:C; [|discriminate].
   destruct (missing_ref refg tb'); [discriminate|].
   intros W Hin. destruct (pairing_by_name _ _ _ _ _ _ _ W Hin) as (l & names & Hl & Hp & Ha & N1 & N2).
   exists names. repeat split; auto.
@@ -1111,4 +1166,569 @@ Proof.
   inversion Eg; subst k' g'. apply filter_In in Hg'. destruct Hg' as [Hg Hdem].
   destruct (unknown_marker_is_error t tb refg qg minm k l g Hd (NoDup_keys_tget _ _ _ ND Hkl) Hg Hdem) as [e He].
   congruence.
+Qed.
+
+(* ------------------------------------------------------------------ entries that need no markers (repaired F7) *)
+(* The entry of a key that needs no markers (not a parent of the tree with >= 2 children) never decides
+   whether the cache is created.  Such an entry is still read when a descendant falls back on its ancestors,
+   so the two runs (entry [] / entry l) differ in more than one place; the proof is a simulation of the two
+   folds of validate_marker_lookup. *)
+Lemma n_usable_pos q l : n_usable q l <> 0%nat <-> exists g, In g l /\ In g q.
+Proof.
+  unfold n_usable. destruct (uniq (inq q l)) as [|g0 r] eqn:E.
+  - split; [intros H; exfalso; apply H; reflexivity|].
+    intros (g & Hg & Hq). assert (Hi : In g (uniq (inq q l))) by (apply uniq_In, inq_In; auto).
+    rewrite E in Hi. destruct Hi.
+  - split; [|intros _; cbn; discriminate]. intros _.
+    assert (Hi : In g0 (uniq (inq q l))) by (rewrite E; left; reflexivity).
+    apply uniq_In, inq_In in Hi. exists g0. exact Hi.
+Qed.
+
+Lemma loop_lists_sub q minm al new g : In g (loop_lists q minm al new) -> In g (new ++ concat al).
+Proof.
+  revert new. induction al as [|l r IH]; intros new H; cbn in *; [rewrite app_nil_r; exact H|].
+  destruct (minm <=? n_usable q (new ++ l))%nat.
+  - rewrite app_assoc. apply in_or_app. left. exact H.
+  - apply IH in H. rewrite <- app_assoc in H. exact H.
+Qed.
+Lemma loop_lists_full q minm al new :
+  (minm <= n_usable q (loop_lists q minm al new))%nat \/ loop_lists q minm al new = new ++ concat al.
+Proof.
+  revert new. induction al as [|l r IH]; intros new; cbn; [right; rewrite app_nil_r; reflexivity|].
+  destruct (minm <=? n_usable q (new ++ l))%nat eqn:E.
+  - left. apply Nat.leb_le. exact E.
+  - destruct (IH (new ++ l)) as [H|H]; [left; exact H | right; rewrite H, app_assoc; reflexivity].
+Qed.
+
+Lemma in_present_lists tb ancs l :
+  In l (present_lists tb ancs) <-> exists a, In a ancs /\ tget (Some a) tb = Some l.
+Proof.
+  unfold present_lists. rewrite in_flat_map. split.
+  - intros (a & Ha & Hl). exists a. split; [exact Ha|].
+    destruct (tget (Some a) tb) as [l'|]; [destruct Hl as [->|[]]; reflexivity | destruct Hl].
+  - intros (a & Ha & Hl). exists a. split; [exact Ha|]. rewrite Hl. left. reflexivity.
+Qed.
+Lemma present_lists_nil tb ancs :
+  present_lists tb ancs = [] -> forall a, In a ancs -> tget (Some a) tb = None.
+Proof.
+  intros H a Ha. destruct (tget (Some a) tb) as [l|] eqn:E; [|reflexivity].
+  assert (Hin : In l (present_lists tb ancs)) by (apply in_present_lists; exists a; auto).
+  rewrite H in Hin. destruct Hin.
+Qed.
+Lemma present_lists_nil_of tb ancs :
+  (forall a, In a ancs -> tget (Some a) tb = None) -> present_lists tb ancs = [].
+Proof.
+  intros H. destruct (present_lists tb ancs) as [|l r] eqn:E; [reflexivity|].
+  assert (Hin : In l (present_lists tb ancs)) by (rewrite E; left; reflexivity).
+  apply in_present_lists in Hin. destruct Hin as (a & Ha & Hl). rewrite (H a Ha) in Hl. discriminate.
+Qed.
+
+(* keys of a table *)
+Lemma tset_keys {A} k (v : A) tb :
+  map fst (tset k v tb) = match tget k tb with Some _ => map fst tb | None => map fst tb ++ [k] end.
+Proof.
+  induction tb as [|[k' v'] r IH]; cbn; [reflexivity|].
+  destruct (pkey_eqb k k') eqn:E; cbn; [reflexivity|]. rewrite IH. destruct (tget k r); reflexivity.
+Qed.
+Lemma tget_none_keys {A} k (tb : list (pkey * A)) : tget k tb = None -> ~ In k (map fst tb).
+Proof.
+  induction tb as [|[k' v'] r IH]; cbn; [tauto|].
+  destruct (pkey_eqb k k') eqn:E; [discriminate|]. apply pkey_eqb_neq in E.
+  intros H [Hk|Hk]; [congruence | exact (IH H Hk)].
+Qed.
+Lemma NoDup_snoc {A} (l : list A) x : NoDup l -> ~ In x l -> NoDup (l ++ [x]).
+Proof.
+  induction l as [|y r IH]; intros ND Hx; cbn; [constructor; [tauto | constructor]|].
+  inversion ND as [|? ? Hy ND']; subst. constructor.
+  - rewrite in_app_iff. cbn. intros [H|[H|[]]]; [exact (Hy H) | subst; apply Hx; left; reflexivity].
+  - apply IH; [exact ND' | intros H; apply Hx; right; exact H].
+Qed.
+Lemma tset_nodup {A} k (v : A) tb : NoDup (map fst tb) -> NoDup (map fst (tset k v tb)).
+Proof.
+  intros ND. rewrite tset_keys. destruct (tget k tb) eqn:E; [exact ND|].
+  apply NoDup_snoc; [exact ND | apply tget_none_keys; exact E].
+Qed.
+
+Lemma patch_parent_nodup t q minm tb li x markers :
+  NoDup (map fst tb) -> NoDup (map fst (fst (patch_parent t q minm tb li x markers))).
+Proof.
+  intros ND. unfold patch_parent.
+  destruct (patch_loop tb q minm (ancestors t li x) markers []) as [new1 patched1].
+  destruct (n_usable q new1 <? minm)%nat.
+  - destruct (tget None tb); cbn [fst].
+    + destruct (is_nil (patched1 ++ [None])); [exact ND | apply tset_nodup; exact ND].
+    + destruct (is_nil patched1); [exact ND | apply tset_nodup; exact ND].
+  - cbn [fst]. destruct (is_nil patched1); [exact ND | apply tset_nodup; exact ND].
+Qed.
+Lemma step_tb_nodup t q minm tb p : NoDup (map fst tb) -> NoDup (map fst (step_tb t q minm tb p)).
+Proof.
+  intros ND. unfold step_tb.
+  destruct (length (children t p) <=? 1)%nat; [exact ND|].
+  destruct p as [[li x]|]; [|exact ND].
+  assert (ND1 : NoDup (map fst (match tget (Some (li, x)) tb with Some _ => tb | None => tset (Some (li, x)) [] tb end))).
+  { destruct (tget (Some (li, x)) tb); [exact ND | apply tset_nodup; exact ND]. }
+  destruct (n_usable q (entry tb (Some (li, x))) <? minm)%nat; [|exact ND1].
+  apply patch_parent_nodup. exact ND1.
+Qed.
+Lemma fold_step_tb_nodup t q minm L tb :
+  NoDup (map fst tb) -> NoDup (map fst (fold_left (step_tb t q minm) L tb)).
+Proof.
+  revert tb. induction L as [|p r IH]; intros tb ND; cbn; [exact ND|]. apply IH. apply step_tb_nodup. exact ND.
+Qed.
+
+(* ---- the error flag of the fold, read off the tables *)
+Definition step_err (t : tree) (q : list gene) (minm : nat) (tb : table) (p : pkey) : bool :=
+  if (length (children t p) <=? 1)%nat then false else
+  match p with
+  | None => is_nil (entry tb None) ||
+            ((n_usable q (entry tb None) <? minm)%nat && Nat.eqb (n_usable q (entry tb None)) 0)
+  | Some _ => (n_usable q (entry tb p) <? minm)%nat &&
+              Nat.eqb (n_usable q (entry (step_tb t q minm tb p) p)) 0
+  end.
+
+Lemma vstep_err t q minm st p :
+  v_err (vstep t q minm st p) = v_err st || step_err t q minm (v_tb st) p.
+Proof.
+  unfold step_err. rewrite <- vstep_tb. unfold vstep, entry.
+  destruct (length (children t p) <=? 1)%nat; [cbn; rewrite orb_false_r; reflexivity|].
+  destruct p as [[li x]|].
+  - destruct (tget (Some (li, x)) (v_tb st)) as [l|] eqn:E.
+    + destruct (is_nil l) eqn:N.
+      * destruct l; [|discriminate].
+        destruct (n_usable q [] <? minm)%nat; [|cbn; rewrite orb_false_r; reflexivity].
+        destruct (patch_parent t q minm (v_tb st) li x []) as [tb' pw].
+        destruct (Nat.eqb _ 0) eqn:Z; cbn [v_tb v_err]; rewrite Z; cbn [andb]; [rewrite orb_true_r | rewrite orb_false_r]; reflexivity.
+      * destruct (n_usable q l <? minm)%nat; [|cbn; rewrite orb_false_r; reflexivity].
+        destruct (patch_parent t q minm (v_tb st) li x l) as [tb' pw].
+        destruct (Nat.eqb _ 0) eqn:Z; cbn [v_tb v_err]; rewrite Z; cbn [andb]; [rewrite orb_true_r | rewrite orb_false_r]; reflexivity.
+    + destruct (n_usable q [] <? minm)%nat; [|cbn; rewrite orb_false_r; reflexivity].
+      destruct (patch_parent t q minm (tset (Some (li, x)) [] (v_tb st)) li x []) as [tb' pw].
+      destruct (Nat.eqb _ 0) eqn:Z; cbn [v_tb v_err]; rewrite Z; cbn [andb]; [rewrite orb_true_r | rewrite orb_false_r]; reflexivity.
+  - destruct (tget None (v_tb st)) as [l|] eqn:E; [|cbn; rewrite orb_true_r; reflexivity].
+    destruct (is_nil l) eqn:N; [cbn; rewrite orb_true_r; reflexivity|]. cbn [orb].
+    destruct (n_usable q l <? minm)%nat; [|cbn; rewrite orb_false_r; reflexivity].
+    destruct (Nat.eqb _ 0); cbn [v_err andb]; [rewrite orb_true_r | rewrite orb_false_r]; reflexivity.
+Qed.
+
+Fixpoint run_ok (t : tree) (q : list gene) (minm : nat) (L : list pkey) (tb : table) : bool :=
+  match L with
+  | [] => true
+  | p :: r => negb (step_err t q minm tb p) && run_ok t q minm r (step_tb t q minm tb p)
+  end.
+
+Lemma vfold_err_gen t q minm L st :
+  v_err (fold_left (vstep t q minm) L st) = v_err st || negb (run_ok t q minm L (v_tb st)).
+Proof.
+  revert st. induction L as [|p r IH]; intros st; cbn [fold_left run_ok]; [cbn; rewrite orb_false_r; reflexivity|].
+  rewrite IH, vstep_err, vstep_tb.
+  destruct (v_err st), (step_err t q minm (v_tb st) p), (run_ok t q minm r (step_tb t q minm (v_tb st) p)); reflexivity.
+Qed.
+
+Lemma validate_ok_inv t tb q minm tb' log :
+  validate_marker_lookup tb q t minm = MOk (tb', log) ->
+  run_ok t q minm (rev (all_parents t)) tb = true /\
+  tb' = fold_left (step_tb t q minm) (rev (all_parents t)) tb.
+Proof.
+  unfold validate_marker_lookup. destruct (v_err (vfold tb q t minm)) eqn:E; [destruct (Nat.eqb _ _); discriminate|].
+  intros H. inversion H; subst tb' log. unfold vfold in *. rewrite vfold_err_gen in E. cbn [vinit v_err v_tb orb] in E.
+  split; [apply negb_false_iff; exact E|]. rewrite vfold_tb_gen. reflexivity.
+Qed.
+Lemma validate_ok_of t tb q minm :
+  run_ok t q minm (rev (all_parents t)) tb = true ->
+  exists log, validate_marker_lookup tb q t minm =
+              MOk (fold_left (step_tb t q minm) (rev (all_parents t)) tb, log).
+Proof.
+  intros H. unfold validate_marker_lookup.
+  assert (E : v_err (vfold tb q t minm) = false).
+  { unfold vfold. rewrite vfold_err_gen. cbn [vinit v_err v_tb orb]. rewrite H. reflexivity. }
+  rewrite E. eexists. unfold vfold. rewrite vfold_tb_gen. reflexivity.
+Qed.
+
+(* ---- what one step does to the entry of a branching, non-root parent *)
+Lemma step_char t q minm tb li x :
+  (2 <= length (children t (Some (li, x))))%nat ->
+  let d := Some (li, x) in
+  let own := entry tb d in
+  let al := present_lists tb (ancestors t li x) in
+  let rootl := entry tb None in
+  let tb' := step_tb t q minm tb d in
+  ((minm <= n_usable q own)%nat /\ tget d tb' = Some own) \/
+  ((n_usable q own < minm)%nat /\ exists new2,
+      incl own new2 /\ incl new2 (own ++ concat al ++ rootl) /\
+      ((minm <= n_usable q new2)%nat \/ incl (own ++ concat al ++ rootl) new2) /\
+      tget d tb' = Some (if is_nil al && match tget None tb with None => true | Some _ => false end
+                         then own else canon (inq q new2))).
+Proof.
+  intros Hc. cbv zeta. unfold step_tb.
+  destruct (length (children t (Some (li, x))) <=? 1)%nat eqn:Ec; [apply Nat.leb_le in Ec; lia|].
+  remember (match tget (Some (li, x)) tb with Some _ => tb | None => tset (Some (li, x)) [] tb end) as tb1 eqn:Etb1.
+  assert (Hd1 : tget (Some (li, x)) tb1 = Some (entry tb (Some (li, x)))).
+  { subst tb1. unfold entry. destruct (tget (Some (li, x)) tb) eqn:E; [exact E | apply tget_tset_same]. }
+  assert (Eoth : forall k, k <> Some (li, x) -> tget k tb1 = tget k tb).
+  { intros k N. subst tb1. destruct (tget (Some (li, x)) tb); [reflexivity | apply tget_tset_other; exact N]. }
+  remember (entry tb (Some (li, x))) as own eqn:Eo.
+  destruct (n_usable q own <? minm)%nat eqn:Emin.
+  - apply Nat.ltb_lt in Emin. right. split; [exact Emin|].
+    unfold patch_parent.
+    pose proof (patch_loop_lists tb1 q minm (ancestors t li x) own []) as HL.
+    pose proof (patch_loop_patched_nil tb1 q minm (ancestors t li x) own []) as HN.
+    destruct (patch_loop tb1 q minm (ancestors t li x) own []) as [new1 patched1].
+    cbn [fst snd] in HL, HN. cbn [is_nil andb] in HN.
+    assert (EP : present_lists tb1 (ancestors t li x) = present_lists tb (ancestors t li x)).
+    { apply present_lists_ext. intros [k a] Ha. apply Eoth.
+      intros E. inversion E; subst. apply ancestors_above in Ha. lia. }
+    rewrite EP in HL, HN.
+    remember (present_lists tb (ancestors t li x)) as al eqn:Eal.
+    assert (ER : tget None tb1 = tget None tb) by (apply Eoth; discriminate).
+    rewrite ER.
+    assert (Hsub : incl new1 (own ++ concat al)).
+    { intros g Hg. rewrite HL in Hg. apply loop_lists_sub in Hg. exact Hg. }
+    assert (Hown : incl own new1).
+    { intros g Hg. rewrite HL. apply loop_lists_incl. exact Hg. }
+    destruct (n_usable q new1 <? minm)%nat eqn:Eu.
+    + apply Nat.ltb_lt in Eu.
+      assert (Hfull : new1 = own ++ concat al).
+      { destruct (loop_lists_full q minm al own) as [H|H]; [rewrite <- HL in H; lia | rewrite HL; exact H]. }
+      unfold entry. destruct (tget None tb) as [l0|] eqn:E0.
+      * exists (new1 ++ l0). cbn [fst].
+        assert (Hnn : is_nil (patched1 ++ [None]) = false) by (destruct patched1; reflexivity).
+        rewrite Hnn, andb_false_r, tget_tset_same.
+        split; [intros g Hg; apply in_or_app; left; apply Hown; exact Hg|].
+        split; [rewrite Hfull, <- app_assoc; apply incl_refl|].
+        split; [right; rewrite Hfull, <- app_assoc; apply incl_refl | reflexivity].
+      * exists new1. cbn [fst]. rewrite andb_true_r, <- HN.
+        split; [exact Hown|].
+        split; [rewrite app_nil_r; exact Hsub|].
+        split; [right; rewrite app_nil_r, Hfull; apply incl_refl|].
+        destruct (is_nil patched1); [exact Hd1 | apply tget_tset_same].
+    + apply Nat.ltb_ge in Eu. exists new1. cbn [fst].
+      destruct (is_nil patched1) eqn:Np.
+      * exfalso. symmetry in HN. assert (Hal : al = []) by (destruct al; [reflexivity | discriminate]).
+        rewrite Hal in HL. cbn in HL. subst new1. lia.
+      * rewrite <- HN. cbn [andb]. rewrite tget_tset_same.
+        split; [exact Hown|].
+        split; [intros g Hg; apply Hsub in Hg; rewrite app_assoc; apply in_or_app; left; exact Hg|].
+        split; [left; exact Eu | reflexivity].
+  - apply Nat.ltb_ge in Emin. left. split; [exact Emin | exact Hd1].
+Qed.
+
+Lemma entry_in_tget tb k g : In g (entry tb k) -> exists l, tget k tb = Some l /\ In g l.
+Proof. unfold entry. destruct (tget k tb) as [l|]; [intros H; exists l; auto | intros []]. Qed.
+
+(* ---- the simulation: two tables that differ in the entry of a key p that needs no markers *)
+Section NoNeed.
+Variables (t : tree) (q : list gene) (minm : nat) (refg : list gene) (p : pkey) (l : list gene).
+
+Record rel (tb0 tb1 : table) : Prop := {
+  r_keys : forall k, tget k tb0 = None <-> tget k tb1 = None;
+  r_use : forall k, n_usable q (entry tb0 k) <> 0%nat -> n_usable q (entry tb1 k) <> 0%nat;
+  r_same : forall k, k <> p -> tget k tb1 = tget k tb0 \/ (forall g, In g (entry tb1 k) -> In g q);
+  r_p : tget p tb1 = Some l;
+  r_root : p <> None -> tget None tb1 = tget None tb0;
+  r_ref : forall k g, In g (entry tb1 k) -> In g q -> In g refg
+}.
+
+Lemma rel_step tb0 tb1 d :
+  (d = p -> (length (children t d) <= 1)%nat) ->
+  rel tb0 tb1 -> step_err t q minm tb0 d = false ->
+  step_err t q minm tb1 d = false /\ rel (step_tb t q minm tb0 d) (step_tb t q minm tb1 d).
+Proof.
+  intros Hdp HR He0.
+  destruct (length (children t d) <=? 1)%nat eqn:Ec.
+  { unfold step_err, step_tb. rewrite Ec. split; [reflexivity | exact HR]. }
+  assert (Hc : (2 <= length (children t d))%nat) by (apply Nat.leb_gt in Ec; lia).
+  assert (Ndp : d <> p) by (intros E; apply Hdp in E; lia).
+  destruct HR as [Rk Ru Rs Rp Rr Rf].
+  destruct d as [[li x]|].
+  2:{ (* the root: its entry is the same in both runs *)
+    assert (Er : tget None tb1 = tget None tb0) by (apply Rr; congruence).
+    assert (Ee : entry tb1 None = entry tb0 None) by (unfold entry; rewrite Er; reflexivity).
+    split.
+    - unfold step_err in *. rewrite Ec in *. rewrite Ee. exact He0.
+    - unfold step_tb. rewrite Ec. constructor; assumption. }
+  set (d := Some (li, x)) in *.
+  pose proof (step_char t q minm tb0 li x Hc) as C0.
+  pose proof (step_char t q minm tb1 li x Hc) as C1.
+  cbv zeta in C0, C1. fold d in C0, C1.
+  remember (step_tb t q minm tb0 d) as tb0' eqn:E0'.
+  remember (step_tb t q minm tb1 d) as tb1' eqn:E1'.
+  assert (O0 : forall k, k <> d -> tget k tb0' = tget k tb0) by (intros k N; subst tb0'; apply step_tb_other; exact N).
+  assert (O1 : forall k, k <> d -> tget k tb1' = tget k tb1) by (intros k N; subst tb1'; apply step_tb_other; exact N).
+  assert (P0 : tget d tb0' <> None) by (subst tb0'; apply step_tb_present; exact Hc).
+  assert (P1 : tget d tb1' <> None) by (subst tb1'; apply step_tb_present; exact Hc).
+  assert (OE0 : forall k, k <> d -> entry tb0' k = entry tb0 k) by (intros k N; unfold entry; rewrite O0 by exact N; reflexivity).
+  assert (OE1 : forall k, k <> d -> entry tb1' k = entry tb1 k) by (intros k N; unfold entry; rewrite O1 by exact N; reflexivity).
+  remember (entry tb0 d) as own0 eqn:Eo0. remember (entry tb1 d) as own1 eqn:Eo1.
+  remember (present_lists tb0 (ancestors t li x)) as al0 eqn:Ea0.
+  remember (present_lists tb1 (ancestors t li x)) as al1 eqn:Ea1.
+  (* usable genes of run 0 have counterparts in run 1 *)
+  assert (F1 : (exists g, In g own0 /\ In g q) -> exists g, In g own1 /\ In g q).
+  { intros H. apply n_usable_pos. subst own1. apply Ru. subst own0. apply n_usable_pos. exact H. }
+  assert (F2 : (exists g, In g (concat al0) /\ In g q) -> exists g, In g (concat al1) /\ In g q).
+  { intros (g & Hg & Hq). apply in_concat in Hg. destruct Hg as (l' & Hl' & Hg).
+    subst al0. apply in_present_lists in Hl'. destruct Hl' as (a & Ha & Hl').
+    assert (U : n_usable q (entry tb1 (Some a)) <> 0%nat).
+    { apply Ru. apply n_usable_pos. exists g. unfold entry. rewrite Hl'. auto. }
+    apply n_usable_pos in U. destruct U as (g1 & Hg1 & Hq1).
+    apply entry_in_tget in Hg1. destruct Hg1 as (l1 & Hl1 & Hg1).
+    exists g1. split; [|exact Hq1]. apply in_concat. exists l1. split; [|exact Hg1].
+    subst al1. apply in_present_lists. exists a. auto. }
+  assert (F3 : (exists g, In g (entry tb0 None) /\ In g q) -> exists g, In g (entry tb1 None) /\ In g q).
+  { intros H. apply n_usable_pos. apply Ru. apply n_usable_pos. exact H. }
+  assert (FW : (exists g, In g (own0 ++ concat al0 ++ entry tb0 None) /\ In g q) ->
+               exists g, In g (own1 ++ concat al1 ++ entry tb1 None) /\ In g q).
+  { intros (g & Hg & Hq). rewrite !in_app_iff in Hg. destruct Hg as [Hg|[Hg|Hg]].
+    - destruct F1 as (g1 & H1 & H2); [exists g; auto|]. exists g1. rewrite !in_app_iff. auto.
+    - destruct F2 as (g1 & H1 & H2); [exists g; auto|]. exists g1. rewrite !in_app_iff. auto.
+    - destruct F3 as (g1 & H1 & H2); [exists g; auto|]. exists g1. rewrite !in_app_iff. auto. }
+  assert (F4 : al1 = [] -> al0 = []).
+  { intros H. subst al0 al1. apply present_lists_nil_of. intros a Ha. apply Rk.
+    eapply present_lists_nil; [exact H | exact Ha]. }
+  assert (F5 : tget None tb1 = None -> tget None tb0 = None) by (intros H; apply Rk; exact H).
+  (* run 0 raised no error *)
+  assert (G0 : (n_usable q own0 < minm)%nat -> n_usable q (entry tb0' d) <> 0%nat).
+  { intros Hlt. unfold step_err in He0. rewrite Ec in He0. fold d in He0. rewrite <- Eo0, <- E0' in He0.
+    apply Nat.ltb_lt in Hlt. rewrite Hlt in He0. cbn [andb] in He0. apply Nat.eqb_neq. exact He0. }
+  (* hence the witness of run 1 *)
+  assert (W : (n_usable q own1 < minm)%nat -> exists g, In g (own1 ++ concat al1 ++ entry tb1 None) /\ In g q).
+  { intros Hlt1. destruct C0 as [[HA0 T0]|[HB0 (new2 & I1 & I2 & I3 & T0)]].
+    - destruct F1 as (g1 & H1 & H2); [apply n_usable_pos; lia|]. exists g1. rewrite !in_app_iff. auto.
+    - apply FW. pose proof (G0 HB0) as U. apply n_usable_pos in U. destruct U as (g & Hg & Hq).
+      unfold entry in Hg. rewrite T0 in Hg. exists g. split; [|exact Hq].
+      destruct (is_nil al0 && _).
+      + apply in_or_app. left. exact Hg.
+      + apply canon_In, inq_In in Hg. apply I2. tauto. }
+  (* the new entry of d in run 1 has a usable gene whenever run 1 patches *)
+  assert (G1 : (n_usable q own1 < minm)%nat -> n_usable q (entry tb1' d) <> 0%nat).
+  { intros Hlt1. destruct C1 as [[HA1 T1]|[HB1 (new2 & I1 & I2 & I3 & T1)]]; [lia|].
+    destruct (W Hlt1) as (g1 & Hg1 & Hq1).
+    assert (U2 : exists g, In g new2 /\ In g q).
+    { destruct I3 as [I3|I3]; [apply n_usable_pos; lia | exists g1; split; [apply I3; exact Hg1 | exact Hq1]]. }
+    destruct U2 as (g & Hg & Hq). apply n_usable_pos. unfold entry. rewrite T1.
+    destruct (is_nil al1 && _) eqn:Eb.
+    - apply andb_true_iff in Eb. destruct Eb as [Eb1 Eb2].
+      assert (Hal : al1 = []) by (destruct al1; [reflexivity | discriminate]).
+      assert (Hr : entry tb1 None = []) by (unfold entry; destruct (tget None tb1); [discriminate | reflexivity]).
+      apply I2 in Hg. rewrite Hal, Hr in Hg. cbn in Hg. rewrite app_nil_r in Hg. exists g. auto.
+    - exists g. split; [|exact Hq]. apply canon_In, inq_In. auto. }
+  split.
+  { unfold step_err. rewrite Ec. fold d. rewrite <- Eo1, <- E1'.
+    destruct (n_usable q own1 <? minm)%nat eqn:El; [|reflexivity]. cbn [andb].
+    apply Nat.eqb_neq. apply G1. apply Nat.ltb_lt. exact El. }
+  assert (Dk : forall k, {k = d} + {k <> d}).
+  { intros k. destruct (pkey_eqb k d) eqn:E; [left; apply pkey_eqb_eq; exact E | right; apply pkey_eqb_neq; exact E]. }
+  constructor.
+  - intros k. destruct (Dk k) as [->|N]; [tauto|]. rewrite O0, O1 by exact N. apply Rk.
+  - intros k. destruct (Dk k) as [->|N]; [|rewrite OE0, OE1 by exact N; apply Ru].
+    intros U0. destruct C1 as [[HA1 T1]|[HB1 _]]; [|apply G1; exact HB1].
+    unfold entry at 1. rewrite T1.
+    destruct C0 as [[HA0 T0]|[HB0 _]].
+    + unfold entry in U0. rewrite T0 in U0. apply n_usable_pos. apply F1. apply n_usable_pos. exact U0.
+    + lia.
+  - intros k Nk. destruct (Dk k) as [->|N].
+    2:{ rewrite O0, O1, OE1 by exact N. apply Rs. exact Nk. }
+    destruct C1 as [[HA1 T1]|[HB1 (new2 & I1 & I2 & I3 & T1)]].
+    + (* run 1 does not patch *)
+      destruct (Rs d Nk) as [Hs|Hs].
+      * assert (Eoo : own1 = own0) by (subst own0 own1; unfold entry; rewrite Hs; reflexivity).
+        destruct C0 as [[HA0 T0]|[HB0 _]]; [left; rewrite T0, T1, Eoo; reflexivity | rewrite Eoo in HA1; lia].
+      * right. unfold entry. rewrite T1. subst own1. exact Hs.
+    + destruct (is_nil al1 && _) eqn:Eb.
+      * (* nothing to patch with *)
+        apply andb_true_iff in Eb. destruct Eb as [Eb1 Eb2].
+        destruct (Rs d Nk) as [Hs|Hs].
+        -- assert (Eoo : own1 = own0) by (subst own0 own1; unfold entry; rewrite Hs; reflexivity).
+           destruct C0 as [[HA0 T0]|[HB0 (new0 & _ & _ & _ & T0)]]; [rewrite Eoo in HB1; lia|].
+           left. rewrite T0, T1, Eoo.
+           assert (Hal : al1 = []) by (destruct al1; [reflexivity | discriminate]).
+           rewrite (F4 Hal).
+           assert (Hr : tget None tb0 = None) by (apply F5; destruct (tget None tb1); [discriminate | reflexivity]).
+           rewrite Hr. reflexivity.
+        -- right. unfold entry. rewrite T1. subst own1. exact Hs.
+      * right. unfold entry. rewrite T1. intros g Hg. apply canon_In, inq_In in Hg. tauto.
+  - rewrite O1 by (intros E; apply Ndp; symmetry; exact E). exact Rp.
+  - intros Np. rewrite O0, O1 by discriminate. apply Rr. exact Np.
+  - intros k. destruct (Dk k) as [->|N]; [|rewrite OE1 by exact N; apply Rf].
+    intros g Hg Hq.
+    assert (Hold : forall g', In g' (own1 ++ concat al1 ++ entry tb1 None) -> In g' q -> In g' refg).
+    { intros g' Hg' Hq'. rewrite !in_app_iff in Hg'. destruct Hg' as [Hg'|[Hg'|Hg']].
+      - subst own1. eapply Rf; eauto.
+      - apply in_concat in Hg'. destruct Hg' as (l' & Hl' & Hg').
+        subst al1. apply in_present_lists in Hl'. destruct Hl' as (a & Ha & Hl').
+        apply (Rf (Some a)); [unfold entry; rewrite Hl'; exact Hg' | exact Hq'].
+      - eapply Rf; eauto. }
+    destruct C1 as [[HA1 T1]|[HB1 (new2 & I1 & I2 & I3 & T1)]].
+    + unfold entry in Hg. rewrite T1 in Hg. apply Hold; [apply in_or_app; left; exact Hg | exact Hq].
+    + unfold entry in Hg. rewrite T1 in Hg. destruct (is_nil al1 && _).
+      * apply Hold; [apply in_or_app; left; exact Hg | exact Hq].
+      * apply canon_In, inq_In in Hg. apply Hold; [apply I2; tauto | exact Hq].
+Qed.
+
+Lemma rel_fold L : forall tb0 tb1,
+  (forall d, In d L -> d = p -> (length (children t d) <= 1)%nat) ->
+  rel tb0 tb1 -> run_ok t q minm L tb0 = true ->
+  run_ok t q minm L tb1 = true /\
+  rel (fold_left (step_tb t q minm) L tb0) (fold_left (step_tb t q minm) L tb1).
+Proof.
+  induction L as [|d r IH]; intros tb0 tb1 HL HR Hok; cbn [run_ok fold_left] in *; [split; [reflexivity | exact HR]|].
+  apply andb_true_iff in Hok. destruct Hok as [He Hok]. apply negb_true_iff in He.
+  destruct (rel_step tb0 tb1 d (HL d (or_introl eq_refl)) HR He) as [He1 HR1].
+  destruct (IH _ _ (fun d' Hd' => HL d' (or_intror Hd')) HR1 Hok) as [Hok1 HR2].
+  rewrite He1, Hok1. split; [reflexivity | exact HR2].
+Qed.
+End NoNeed.
+
+Lemma missing_ref_false refg tb :
+  missing_ref refg tb = false <-> (forall k l g, In (k, l) tb -> In g l -> In g refg).
+Proof.
+  unfold missing_ref. split.
+  - intros H k l g Hin Hg. destruct (zmem g refg) eqn:Z; [apply zmem_in; exact Z|].
+    exfalso. assert (T : existsb (fun kl => existsb (fun g => negb (zmem g refg)) (snd kl)) tb = true).
+    { apply existsb_exists. exists (k, l). split; [exact Hin|]. cbn. apply existsb_exists. exists g. rewrite Z. auto. }
+    congruence.
+  - intros H. destruct (existsb (fun kl : pkey * list gene => existsb (fun g => negb (zmem g refg)) (snd kl)) tb) eqn:E; [|exact E]. exfalso.
+    apply existsb_exists in E. destruct E as ([k l] & Hin & E). cbn in E.
+    apply existsb_exists in E. destruct E as (g & Hg & E). apply negb_true_iff, zmem_false in E.
+    apply E. eapply H; eauto.
+Qed.
+
+(* once the loop and the reference check have passed, the cache is written *)
+Lemma write_after_loop need refg qg tb final :
+  cc_loop need qg tb = MOk final -> missing_ref refg tb = false ->
+  exists c, write_query_markers final refg qg = MOk c.
+Proof.
+  intros C M. rewrite missing_ref_false in M. unfold write_query_markers.
+  assert (H : exists gs, wq_groups refg qg final = Some gs).
+  { revert final C M. induction tb as [|[k l] r IH]; intros final C M; cbn in C.
+    - inversion C; subst. eexists; reflexivity.
+    - destruct (is_nil (uniq (inq qg l)) && negb (is_nil l) && need k); [discriminate|].
+      destruct (cc_loop need qg r) as [f'|e] eqn:Er; [|discriminate]. inversion C; subst final. cbn.
+      destruct (index_pairs_some refg qg (uniq (inq qg l))) as [ps ->].
+      { intros g Hg. apply uniq_In, inq_In in Hg. destruct Hg as [Hg Hq]. split; [|exact Hq].
+        apply (M k l g); [left; reflexivity | exact Hg]. }
+      destruct (IH f' eq_refl) as [gs ->]; [intros k' l' g Hin Hg; apply (M k' l' g); [right; exact Hin | exact Hg]|].
+      eexists; reflexivity. }
+  destruct H as [gs ->]. eexists; reflexivity.
+Qed.
+
+Lemma needs_markers_in t d : needs_markers t d = false -> In d (all_parents t) -> (length (children t d) <= 1)%nat.
+Proof.
+  unfold needs_markers, in_parents. intros H Hin.
+  assert (E : existsb (pkey_eqb d) (all_parents t) = true).
+  { apply existsb_exists. exists d. split; [exact Hin | apply pkey_eqb_refl]. }
+  rewrite E in H. cbn [andb] in H. apply Nat.leb_gt in H. lia.
+Qed.
+
+(* THE STATEMENT: an entry that needs no markers never makes the creation of the cache fail *)
+Theorem unneeded_entry_is_harmless t tb refg qg minm p l :
+  NoDup (map fst tb) ->
+  needs_markers t p = false ->
+  (forall g, In g l -> In g refg) ->
+  (exists c, create_cache (tset p [] tb) refg qg (Some t) minm = MOk c) ->
+  exists c, create_cache (tset p l tb) refg qg (Some t) minm = MOk c.
+Proof.
+  intros ND Hp Hl [c0 H0].
+  destruct (create_cache_inv _ _ _ _ _ _ H0) as (tb0' & log0 & final0 & V0 & C0 & M0 & W0).
+  destruct (validate_ok_inv _ _ _ _ _ _ V0) as [Ok0 E0].
+  set (L := rev (all_parents t)) in *.
+  assert (HL : forall d, In d L -> d = p -> (length (children t d) <= 1)%nat).
+  { intros d Hd ->. apply needs_markers_in; [exact Hp|]. apply in_rev. exact Hd. }
+  assert (HR : rel qg refg p l (tset p [] tb) (tset p l tb)).
+  { assert (Dk : forall k, {k = p} + {k <> p}).
+    { intros k. destruct (pkey_eqb k p) eqn:E; [left; apply pkey_eqb_eq; exact E | right; apply pkey_eqb_neq; exact E]. }
+    constructor.
+    - intros k. destruct (Dk k) as [->|N].
+      + rewrite !tget_tset_same. split; discriminate.
+      + rewrite !tget_tset_other by exact N. tauto.
+    - intros k. destruct (Dk k) as [->|N].
+      + rewrite entry_tset_same. intros H. exfalso. apply H. reflexivity.
+      + rewrite !entry_tset_other by exact N. tauto.
+    - intros k N. left. rewrite !tget_tset_other by exact N. reflexivity.
+    - apply tget_tset_same.
+    - intros N. rewrite !tget_tset_other by (intros E; apply N; symmetry; exact E). reflexivity.
+    - intros k g Hg Hq. destruct (Dk k) as [->|N].
+      + rewrite entry_tset_same in Hg. apply Hl. exact Hg.
+      + rewrite entry_tset_other in Hg by exact N.
+        destruct (zmem g refg) eqn:Z; [apply zmem_in; exact Z|]. exfalso. apply zmem_false in Z.
+        apply entry_in_tget in Hg. destruct Hg as (l' & Hl' & Hg).
+        assert (Hin : In (k, l') (tset p [] tb)).
+        { apply tget_In. rewrite tget_tset_other by exact N. exact Hl'. }
+        destruct (unknown_to_reference_is_error t _ refg qg minm k l' g Hin Hg Hq Z) as [e He]. congruence. }
+  destruct (rel_fold t qg minm refg p l L _ _ HL HR Ok0) as [Ok1 HR1].
+  fold L in E0. rewrite <- E0 in HR1.
+  destruct (validate_ok_of _ _ _ _ Ok1) as [log1 V1]. fold L in V1.
+  remember (fold_left (step_tb t qg minm) L (tset p l tb)) as tb1' eqn:E1.
+  assert (ND1 : NoDup (map fst tb1')) by (subst tb1'; apply fold_step_tb_nodup, tset_nodup; exact ND).
+  destruct HR1 as [Rk Ru Rs Rp Rr Rf].
+  assert (M0' := M0). rewrite missing_ref_false in M0'.
+  (* the reference check *)
+  assert (M1 : missing_ref refg tb1' = false).
+  { apply missing_ref_false. intros k l' g Hin Hg.
+    pose proof (NoDup_keys_tget _ _ _ ND1 Hin) as Hk.
+    destruct (zmem g qg) eqn:Zq.
+    - apply zmem_in in Zq. apply (Rf k); [unfold entry; rewrite Hk; exact Hg | exact Zq].
+    - apply zmem_false in Zq.
+      destruct (pkey_eqb k p) eqn:Ekp.
+      + apply pkey_eqb_eq in Ekp. subst k. rewrite Rp in Hk. inversion Hk; subst l'. apply Hl. exact Hg.
+      + apply pkey_eqb_neq in Ekp. destruct (Rs k Ekp) as [Hs|Hs].
+        * apply (M0' k l' g); [apply tget_In; rewrite <- Hs; exact Hk | exact Hg].
+        * exfalso. apply Zq. apply Hs. unfold entry. rewrite Hk. exact Hg. }
+  (* the loop *)
+  assert (C1 : exists final1, cc_loop (needs_markers t) qg tb1' = MOk final1).
+  { apply cc_loop_ok_iff. apply Forall_forall. intros [k l'] Hin.
+    pose proof (NoDup_keys_tget _ _ _ ND1 Hin) as Hk.
+    unfold entry_ok. cbn [fst snd].
+    destruct (needs_markers t k) eqn:Nk; [|left; reflexivity]. right.
+    assert (Ekp : k <> p) by (intros ->; congruence).
+    destruct (Rs k Ekp) as [Hs|Hs].
+    - assert (F0 : Forall (entry_ok (needs_markers t) qg) tb0') by (apply cc_loop_ok_iff; eexists; exact C0).
+      rewrite Forall_forall in F0. specialize (F0 (k, l')). unfold entry_ok in F0. cbn [fst snd] in F0.
+      destruct F0 as [F0|F0]; [apply tget_In; rewrite <- Hs; exact Hk | congruence | exact F0].
+    - destruct l' as [|g r]; [left; reflexivity|]. right. apply n_usable_pos. exists g.
+      split; [left; reflexivity|]. apply Hs. unfold entry. rewrite Hk. left. reflexivity. }
+  destruct C1 as [final1 C1].
+  destruct (write_after_loop _ _ _ _ _ C1 M1) as [c1 W1].
+  exists c1. unfold create_cache. rewrite V1. cbn [cc_need]. rewrite C1, M1. exact W1.
+Qed.
+
+(* the single-child form *)
+Corollary single_child_entry_is_harmless t tb refg qg minm p l :
+  NoDup (map fst tb) ->
+  In p (all_parents t) -> (length (children t p) <= 1)%nat ->
+  (forall g, In g l -> In g refg) ->
+  (exists c, create_cache (tset p [] tb) refg qg (Some t) minm = MOk c) ->
+  exists c, create_cache (tset p l tb) refg qg (Some t) minm = MOk c.
+Proof.
+  intros ND _ Hc. apply unneeded_entry_is_harmless; [exact ND|].
+  unfold needs_markers. apply andb_false_iff. right. apply Nat.leb_gt. lia.
+Qed.
+
+(* a key that is no parent of the tree (a node of the leaf level, of a dropped level, ...) needs none either *)
+Lemma not_a_parent_needs_none t p : ~ In p (all_parents t) -> needs_markers t p = false.
+Proof.
+  intros H. unfold needs_markers, in_parents.
+  destruct (existsb (pkey_eqb p) (all_parents t)) eqn:E; [|reflexivity].
+  exfalso. apply existsb_exists in E. destruct E as (k & Hk & E). apply pkey_eqb_eq in E. subst k. exact (H Hk).
+Qed.
+
+(* what the creation of a cache can fail with after validate_marker_lookup has passed: E_NO_OVERLAP is raised
+   for nothing but a parent of the tree with >= 2 children that lists genes and has none in the query *)
+Theorem no_overlap_only_for_needed t tb refg qg minm :
+  create_cache tb refg qg (Some t) minm = MErr E_NO_OVERLAP ->
+  exists tb' log k l, validate_marker_lookup tb qg t minm = MOk (tb', log) /\
+    In (k, l) tb' /\ In k (all_parents t) /\ (2 <= length (children t k))%nat /\
+    l <> [] /\ (forall g, In g l -> ~ In g qg).
+Proof.
+  unfold create_cache.
+  destruct (validate_marker_lookup tb qg t minm) as [[tb' log]|e] eqn:V.
+  2:{ intros H. exfalso. inversion H as [He]. subst e. unfold validate_marker_lookup in V.
+      destruct (v_err _); [destruct (Nat.eqb _ _); discriminate | discriminate]. }
+  cbn [cc_need]. destruct (cc_loop (needs_markers t) qg tb') as [final|e] eqn:C.
+  - destruct (missing_ref refg tb'); [discriminate|].
+    unfold write_query_markers. destruct (wq_groups refg qg final); discriminate.
+  - intros _. destruct (cc_loop_fails_on_needed _ _ _ _ C) as (_ & k & l & Hin & Hn & Hne & Hno).
+    exists tb', log, k, l. split; [reflexivity|]. split; [exact Hin|].
+    unfold needs_markers in Hn. apply andb_true_iff in Hn. destruct Hn as [Hp Hc].
+    unfold in_parents in Hp. apply existsb_exists in Hp. destruct Hp as (k' & Hk' & Ek). apply pkey_eqb_eq in Ek. subst k'.
+    split; [exact Hk'|]. split; [apply Nat.leb_le; exact Hc|]. auto.
 Qed.
